@@ -84,26 +84,38 @@ def confirm(mid):
     return ok
 
 
+DETECT_WT = "/tmp/wt/detect"
+
+
 def detect(mid, tier="quick", props=None):
+    """Runs the registered check against the mutation in a scratch worktree of /repo HEAD (so concurrent work on
+    /repo is not disturbed); evidence and replays of these runs go to .work/detect-* and never to /verif/evidence."""
     d = os.path.join(SEEDED, mid)
     meta = load_meta(mid)
-    rc, out = sh(f"git -C {REPO} status --porcelain")
-    assert out.strip() == "", "/repo is not clean: " + out
+    if not os.path.isdir(DETECT_WT):
+        os.makedirs(os.path.dirname(DETECT_WT), exist_ok=True)
+        rc, out = sh(f"git -C {REPO} worktree add --detach {DETECT_WT} HEAD")
+        assert rc == 0, out
+    sh("git checkout -q --detach $(git -C /repo rev-parse HEAD) && git checkout -- . && git clean -fdq", cwd=DETECT_WT)
     pid = mid.split("-")[0]
     results = {}
+    env = dict(VERIF_REPO=DETECT_WT, VERIF_KANI_TARGET_SUFFIX="-detect",
+               VERIF_EVIDENCE_DIR=os.path.join(VERIF, ".work", "detect-evidence"),
+               VERIF_REPLAY_DIR=os.path.join(VERIF, ".work", "detect-replays"))
+    os.makedirs(env["VERIF_EVIDENCE_DIR"], exist_ok=True)
     try:
-        rc, out = sh(f"git -C {REPO} apply {d}/patch.diff")
+        rc, out = sh(f"git apply {d}/patch.diff", cwd=DETECT_WT)
         assert rc == 0, "patch does not apply: " + out
         for p in (props or [pid]):
             t0 = time.time()
-            rc, out = sh(f"./check {p} --tier {tier}", cwd=VERIF, timeout=4 * 3600)
+            rc, out = sh(f"./check {p} --tier {tier}", cwd=VERIF, timeout=4 * 3600, env=env)
             viol = re.findall(r"^VIOLATION .*$", out, re.M)
             violated = re.findall(r"^violated: (.*)$", out, re.M)
             results[p] = dict(exit=rc, violation_lines=viol, violated=violated[:6], wall_s=round(time.time() - t0),
                               tail=out.strip().splitlines()[-12:])
-            print(mid, p, tier, "exit", rc, "|", "; ".join(violated[:3]) if violated else out.strip().splitlines()[-1][:200])
+            print(mid, p, tier, "exit", rc, "|", "; ".join(v[:140] for v in violated[:2]) if violated else out.strip().splitlines()[-1][:200], flush=True)
     finally:
-        sh(f"git -C {REPO} checkout -- .")
+        sh("git checkout -- . && git clean -fdq", cwd=DETECT_WT)
     meta.setdefault("detection", {})[tier] = results
     meta["detected"] = any(r["exit"] == 1 for t in meta["detection"].values() for r in t.values())
     save_meta(mid, meta)
